@@ -216,7 +216,13 @@ func r23ChannelLifeCycle(c *core.Ctx) {
 	}
 	for _, ci := range pl.chans {
 		c.Saw(R, fmt.Sprintf("channel %s @%s: %d send sites, %d close sites, %d receive sites", ci.name, c.P.Pos(ci.make.Pos()), len(ci.sends), len(ci.closes), len(ci.recvs)))
-		senders := fnSet(ci.sends)
+		// a send in a helper that does not close the channel and is only called synchronously from one place
+		// counts as a send at that call (the stage's sending loop may live in a function of its own)
+		lifted := liftSends(c, ci)
+		senders := map[*ssa.Function]bool{}
+		for _, ls := range lifted {
+			senders[ls.Parent()] = true
+		}
 		closers := fnSet(ci.closes)
 		// the source channel is written by implementations of processing.Source; each is its own sender+closer
 		c.Check(R, "has-sender-and-closer/"+ci.name, ci.make.Pos(), len(ci.sends) > 0 && len(ci.closes) > 0,
@@ -245,7 +251,7 @@ func r23ChannelLifeCycle(c *core.Ctx) {
 				c.Check(R, fmt.Sprintf("close-all-no-skip/%s/%s", ci.name, fn.Name()), closeI.Pos(), !r && ci.flow[container],
 					"every iteration of the range over the channel container closes its channel (no skip, break or early return)",
 					"the loop closing the target channels can skip a channel (continue/break/early return): that target's writer never finishes and wg.Wait blocks forever")
-				for _, s := range sendsIn(ci, fn) {
+				for _, s := range sendsInLifted(lifted, fn) {
 					c.Check(R, fmt.Sprintf("close-after-sends/%s/%s", ci.name, fn.Name()), closeI.Pos(),
 						core.PostDominatesNormal(nx, s) && !core.ReachableFrom(closeI, s),
 						"the close-all loop is on every normal path after the send, and no send is reachable from a close",
@@ -254,7 +260,7 @@ func r23ChannelLifeCycle(c *core.Ctx) {
 			} else {
 				c.Check(R, fmt.Sprintf("close-not-in-loop/%s/%s", ci.name, fn.Name()), closeI.Pos(), !core.InLoop(closeI),
 					"close is outside every loop", "close(channel) is inside a loop: a second close or a send after close panics")
-				for i, s := range sendsIn(ci, fn) {
+				for i, s := range sendsInLifted(lifted, fn) {
 					c.Check(R, fmt.Sprintf("close-after-sends/%s/%s/send%d", ci.name, fn.Name(), i), closeI.Pos(),
 						core.PostDominatesNormal(closeI, s) && !core.ReachableFrom(closeI, s),
 						"close post-dominates the send on all normal-return paths and no send is reachable from the close",
@@ -277,6 +283,61 @@ func r23ChannelLifeCycle(c *core.Ctx) {
 	r23SourceImpls(c, pl)
 	c.FloorPrefix(R, "sender-closes/", 3)
 	c.FloorPrefix(R, "close-after-sends/", 3)
+}
+
+// liftSends returns, per send on the channel, the instruction that stands for it in the function responsible for the
+// channel: the send itself, or the synchronous call through which a non-closing helper performs it.
+func liftSends(c *core.Ctx, ci *chanInfo) []ssa.Instruction {
+	callers := callersIndex(c)
+	closes := func(fn *ssa.Function) bool {
+		for _, x := range ci.closes {
+			if x.Parent() == fn {
+				return true
+			}
+		}
+		return false
+	}
+	seen := map[ssa.Instruction]bool{}
+	var out []ssa.Instruction
+	for _, s := range ci.sends {
+		var in ssa.Instruction = s
+		fn := s.Parent()
+		for depth := 0; depth < 3 && !closes(fn); depth++ {
+			sites := callers(fn)
+			if len(sites) != 1 {
+				break
+			}
+			call, ok := sites[0].(*ssa.Call)
+			if !ok {
+				break // go / defer: a different goroutine or a different time
+			}
+			passes := false
+			for _, a := range call.Call.Args {
+				if ci.flow[a] {
+					passes = true
+				}
+			}
+			if !passes {
+				break
+			}
+			in, fn = call, call.Parent()
+		}
+		if !seen[in] {
+			seen[in] = true
+			out = append(out, in)
+		}
+	}
+	return out
+}
+
+func sendsInLifted(lifted []ssa.Instruction, fn *ssa.Function) []ssa.Instruction {
+	var out []ssa.Instruction
+	for _, s := range lifted {
+		if s.Parent() == fn {
+			out = append(out, s)
+		}
+	}
+	return out
 }
 
 func sendsIn(ci *chanInfo, fn *ssa.Function) []*ssa.Send {
